@@ -17,3 +17,7 @@ package orefafs
 //@   at store orefafs.OrefaFS.nodes assert[C06] !dom(themap, key)
 //@ func (*OrefaFS).Rename
 //@   at store orefafs.OrefaFS.nodes#0 assert[C06] dom(themap, oAbsPath) && themap[oAbsPath] == oChild && (nChildOk == dom(themap, key))
+
+// open(2) with O_CREAT|O_EXCL succeeds only by creating the file (also under interference).
+//@ func (*OrefaFS).OpenFile
+//@   ensures[C06,C01] r1 == nil && flag&os.O_CREATE != 0 && flag&os.O_EXCL != 0 ==> called(vfs.createNode)
